@@ -15,10 +15,15 @@ HARNESSES[name] = dict(
 
 # loops that get a bound of their own in every harness
 DEFAULT_LOOPS = [
-    (r"verif_kani::model::mix", 260),       # UF table scan (table mode): trip count is concrete, cap = UF_CAP + margin
-    (r"verif_kani::vk::any_bytes", 200),
-    (r"vk::elementwise_copy", 200),
-    (r"vk::ga_clone_from_slice", 200),      # stub of GenericArray::clone_from_slice (concrete trip counts <= 117)         # stub of <[u8]>::copy_from_slice (concrete trip counts <= 117)    # filling a symbolic buffer (concrete trip count N <= 181)
+    (r"verif_kani::model::mix", 260),            # UF table scan (table mode): trip count is concrete, cap = UF_CAP + margin
+    (r"verif_kani::vk::any_bytes", 200),         # filling a symbolic buffer (concrete trip count N <= 181)
+    # the two stubs keep the name of the function they replace:
+    (r"copy_from_slice", 34),                    # <[T]>::copy_from_slice -> vk::elementwise_copy (largest copy in the code under test: 32 bytes)
+    (r"block_buffer::BlockBuffer", 18),          # block buffer padding / buffering loops (16-byte block)
+    (r"GenericArray.*clone_from_slice", 120),    # GenericArray::clone_from_slice -> vk::ga_clone_from_slice (<= 117 bytes)
+    # model hash: blocks per update call (a 117-byte message is 8 blocks); CBMC does not see the concrete block count
+    # and would otherwise iterate to the global bound on every call
+    (r"UpdateCore>::update_blocks", 10),
 ]
 
 COMMON_ASSUMPTIONS = [
@@ -183,10 +188,10 @@ for n, d in (("default_ids", "identities absent"), ("explicit_ids", "client 2 by
 # ---- S10 / S11 (tripledh.rs)
 H("s11_derive_3dh_keys", "verif_kani_tripledh::s11_derive_3dh_keys",
   "derive_3dh_keys == RFC 9807 DeriveKeys: Extract(dh1||dh2||dh3), Expand-Label HandshakeSecret/SessionKey with Hash(preamble), ServerMAC/ClientMAC",
-  "every three key pairs and transcript hash", covers=["reached"], timeout=1800, mem_gb=16)
+  "every three key pairs and transcript hash", covers=["reached"], timeout=3000, mem_gb=30)
 H("s11_derive_3dh_keys_external", "verif_kani_tripledh::s11_derive_3dh_keys_external",
   "same through the external-key interface: exactly one diffie_hellman call, failure => the key's own Custom error",
-  "failure at call 0(never)/1/2", covers=["ok", "external key failure"], timeout=1800, mem_gb=16)
+  "failure at call 0(never)/1/2", covers=["ok", "external key failure"], timeout=3000, mem_gb=30)
 for n, d in (("ctx0_default_ids", "empty context, default identities"), ("ctx2_explicit_idu", "2-byte context, explicit 1-byte client identity")):
     H("s10_generate_ke2_" + n, "verif_kani_tripledh::s10_generate_ke2_" + n,
       "TripleDh::generate_ke2 == RFC 9807 AuthServerRespond: fresh nonce/ephemeral key from the RNG, preamble over context, identities, request, response, nonce, key share; server MAC; pending state (Km3, Hash(preamble||mac), session key)",
@@ -194,8 +199,15 @@ for n, d in (("ctx0_default_ids", "empty context, default identities"), ("ctx2_e
     H("s10_generate_ke3_" + n, "verif_kani_tripledh::s10_generate_ke3_" + n,
       "TripleDh::generate_ke3 == RFC 9807 AuthClientFinalize: Ok <=> received MAC == MAC(Km2, Hash(preamble)); session key; client MAC over Hash(preamble||server_mac); else InvalidLoginError",
       d + "; request, response, KE2 message, client state, keys symbolic", covers=["accept", "reject"], loops=SLICE_LOOPS + KEYLOOPS, timeout=3600, mem_gb=22)
+for n, d in (("ctx0_default_ids", "empty context, default identities"), ("ctx2_explicit_idu", "2-byte context, explicit 1-byte client identity")):
+    H("s10w_generate_ke2_" + n, "verif_kani_tripledh::s10w_generate_ke2_" + n,
+      "TripleDh::generate_ke2 with derive_3dh_keys replaced by its reference (S11): fresh nonce/ephemeral key, preamble over context, identities, request, response, nonce, key share; server MAC; pending state",
+      d + "; request, response, keys, tape symbolic", covers=["reached"], loops=SLICE_LOOPS + KEYLOOPS, timeout=3000, mem_gb=24)
+    H("s10w_generate_ke3_" + n, "verif_kani_tripledh::s10w_generate_ke3_" + n,
+      "TripleDh::generate_ke3 with derive_3dh_keys replaced by its reference (S11): Ok <=> received MAC == MAC(Km2, Hash(preamble)); session key; client MAC over Hash(preamble||server_mac); else InvalidLoginError",
+      d + "; request, response, KE2 message, client state, keys symbolic", covers=["accept", "reject"], loops=SLICE_LOOPS + KEYLOOPS, timeout=3000, mem_gb=24)
 H("s10_expand_label_limits", "verif_kani_tripledh::s10_expand_label_limits", "hkdf_expand_label == RFC Expand-Label; 256-byte context refused",
-  "context 8 symbolic bytes / 256 bytes", covers=["ok", "256 refused"])
+  "context 8 symbolic bytes / 256 bytes", covers=["ok", "256 refused"], timeout=1800, mem_gb=18)
 
 # ---- G: concrete groups (external crate /verif/kani-ext, public API, real arithmetic at byte level)
 def G(name, mod, what, bounds, covers, **kw):
@@ -207,7 +219,8 @@ G("g2_x25519_pk_roundtrip", "g_curve25519", "Curve25519 deserialize_pk: length 3
 G("g2_x25519_pk_small_order", "g_curve25519", "Curve25519 deserialize_pk never accepts a small-order u-coordinate (0, 1, p-1, the two order-8 values; mod p, bit 255 ignored)", "all 2^256 strings", ["ok", "err"])
 G("g2_x25519_pk_no_alias", "g_curve25519", "two different accepted Curve25519 public-key encodings never compare equal", "all pairs of 32-byte strings", ["both decode"], known_finding="F3-x25519-noncanonical")
 G("g2_x25519_pk_no_alias_canonical", "g_curve25519", "same, restricted to canonical encodings (u < p, bit 255 clear)", "all pairs of canonical strings", ["both decode"])
-G("g4_ristretto_sk_decode", "g_ristretto", "ristretto255 deserialize_sk: Ok <=> 0 < s < l; re-encodes to the input", "all 2^256 strings", ["ok", "err"])
+G("g4_ristretto_sk_decode", "g_ristretto", "ristretto255 deserialize_sk: accepted scalars re-encode to the input; bit 255 set is refused", "all 2^256 strings", ["ok", "err"], timeout=1200)
+G("g4_ristretto_sk_boundaries", "g_ristretto", "ristretto255 deserialize_sk on the boundary values 0, 1, l-1, l, l+1, 2^252-1, 2^252, 2^253", "8 concrete byte strings through the engine (full range statement outside reach: Montgomery reduction)", ["reached"], timeout=1800, mem_gb=16)
 G("g4_ristretto_lengths_identity", "g_ristretto", "ristretto255 keys of length != 32 refused; identity public key refused", "lengths 0..=64", ["reached"])
 G("g5_p256_sk_decode", "g_nist", "P-256 deserialize_sk: Ok <=> 0 < v < n; re-encodes to the input", "all 2^256 strings", ["ok", "err"], timeout=1800, mem_gb=16)
 G("g6_p256_pk_unknown_tags", "g_nist", "P-256 deserialize_pk refuses every SEC1 tag outside {0,2,3,4,5}", "33-byte strings, tag and x symbolic", ["reached"], timeout=1800, mem_gb=16)
@@ -254,7 +267,7 @@ W3 = ["w3_client_login_finish_default_ids", "w3_client_login_finish_explicit_ids
 S9W = ["s9w_seal_default_ids", "s9w_seal_explicit_ids", "s9w_seal_server_only", "s9w_seal_client_only",
        "s9w_open_default_ids", "s9w_open_explicit_ids", "s9w_open_client_empty", "s9w_open_server_only"]
 S9U = ["s9_open_raw_exact", "s9_seal_raw", "s9_construct_aad_order", "s9_keys_internal"]
-S10 = ["s10_generate_ke2_ctx0_default_ids", "s10_generate_ke2_ctx2_explicit_idu", "s10_generate_ke3_ctx0_default_ids", "s10_generate_ke3_ctx2_explicit_idu"]
+S10 = ["s10w_generate_ke2_ctx0_default_ids", "s10w_generate_ke2_ctx2_explicit_idu", "s10w_generate_ke3_ctx0_default_ids", "s10w_generate_ke3_ctx2_explicit_idu"]
 S6 = ["s6_pwd_key_len3", "s6_pwd_key_len0", "s6_default_explicit_eq_none", "s6_pwd_too_long"]
 S12 = ["s12_i2osp_all_usize", "s12_input_from_all_lengths", "s12_input_from_label", "s12_identifiers_defaulting"]
 LEMMAS = ["lemma_hash_eq", "lemma_hmac_eq", "lemma_hkdf_eq", "lemma_hkdf_pad42", "lemma_stub_clone_from_slice", "engine_selftest_ga_copy"]
@@ -300,12 +313,12 @@ PROPERTIES["C09"] = dict(
 PROPERTIES["C10"] = dict(
     quick=SELF + D_QUICK + ["g1_x25519_sk_decode", "g1_x25519_sk_lengths", "g2_x25519_pk_roundtrip", "g2_x25519_pk_no_alias", "g2_x25519_pk_no_alias_canonical",
                             "g4_ristretto_lengths_identity", "g5_p256_sk_decode", "g6_p256_pk_unknown_tags", "g6_p256_pk_tag_cases"],
-    thorough=D_ALL + ["g4_ristretto_sk_decode"],
+    thorough=D_ALL + ["g4_ristretto_sk_decode", "g4_ristretto_sk_boundaries"],
     assumptions=["opaque-ke's own slicing/length logic is decided on the model suite for all 11 decoders; the real groups' byte-level decoders are decided for Curve25519 (all inputs), ristretto255 scalars, P-256 scalars and tag bytes; point decompression (off-curve x, non-canonical ristretto encodings) needs a symbolic field square root and is not decided"])
 PROPERTIES["C11"] = dict(
     quick=SELF + ["d_reg_req", "d_reg_resp", "d_reg_upload", "d_cred_req", "d_cred_resp", "d_setup", "d_client_reg", "d_client_login",
                   "g1_x25519_sk_decode", "g2_x25519_pk_small_order", "g5_p256_sk_decode", "g6_p256_pk_unknown_tags", "g6_p256_pk_tag_cases"],
-    thorough=["g4_ristretto_sk_decode", "d_all_reg_resp", "d_all_client_reg", "d_all_setup"],
+    thorough=["g4_ristretto_sk_decode", "g4_ristretto_sk_boundaries", "d_all_reg_resp", "d_all_client_reg", "d_all_setup"],
     assumptions=["serde paths (bincode / JSON) are not encoded: the serde impls in keypair.rs call the same KeGroup decoders that are decided here (by inspection, not by the solver)",
                  "off-curve / non-canonical point encodings need symbolic decompression: not decided"])
 PROPERTIES["C12"] = dict(
@@ -338,5 +351,5 @@ PROPERTIES["C18"] = dict(
     assumptions=["the external key is the model MSecretKey (2-byte handle, call log, failure at the n-th call with a caller-chosen code)"])
 PROPERTIES["C19"] = dict(
     quick=SELF + ["g1_x25519_sk_decode", "g1_x25519_sk_lengths", "g3_x25519_derive", "g2_x25519_pk_roundtrip", "g5_p256_sk_decode", "g4_ristretto_lengths_identity", "s14_derive_auth_keypair_loop"],
-    thorough=["g4_ristretto_sk_decode", "g6_p256_pk_tag_cases", "s9_keys_internal"],
+    thorough=["g4_ristretto_sk_decode", "g4_ristretto_sk_boundaries", "g6_p256_pk_tag_cases", "s9_keys_internal"],
     assumptions=["Diffie-Hellman symmetry and public-key consistency on the five real groups need >= 255 dependent symbolic field multiplications: outside reach, they stay with the repository's proptests; decided: key encodings round-trip, seeded derivation for Curve25519 == RFC 7748 clamp on all 2^256 seeds, scalar range checks"])
